@@ -27,7 +27,7 @@ WHITE_BOX = ["PCACD._change_score (score history; decisions and num_pcs are comp
 
 def scenarios(tier):
     k = 1 if tier == "quick" else 8
-    return [("stream", 300 * k), ("repeat", 80 * k)]
+    return [("stream", 300 * k), ("repeat", 80 * k), ("long_step", 8 * k)]
 
 
 def gen(rng, scenario, tier):
@@ -38,6 +38,12 @@ def gen(rng, scenario, tier):
         sp = 0.1
     cfg = {"window_size": w, "ev_threshold": rng.choice([0.7, 0.9, 0.99]), "delta": rng.choice([0.01, 0.05, 0.1]),
            "divergence_metric": rng.choice(["kl", "intersection"]), "sample_period": sp, "online_scaling": rng.random() < 0.6}
+    if scenario == "long_step":
+        # sample_period * window_size > 100: the documented cap of the check period (100 samples) binds
+        w = rng.choice([210, 240, 300])
+        cfg.update(window_size=w, sample_period=0.5, divergence_metric=rng.choice(["kl", "intersection"]), delta=rng.choice([0.01, 0.05]))
+        rows, drifts = workload.mv_stream(rng, 2 * w + rng.randint(250, 450), d, drift_rate=0.004)
+        return {"cfg": cfg, "events": rows, "drift_positions": drifts}
     if scenario == "repeat":
         block, _ = workload.mv_stream(rng, w, d, drift_rate=0.0)
         rows = block * rng.randint(3, 5)
